@@ -26,8 +26,8 @@ const (
 // Obligation is one rule instance, keyed by rule and construct, never by line.
 type Obligation struct {
 	Rule       string `json:"rule"`
-	Key        string `json:"key"`    // rule/package.Func/construct
-	Where      string `json:"where"`  // file:line on today's tree (informational)
+	Key        string `json:"key"`   // rule/package.Func/construct
+	Where      string `json:"where"` // file:line on today's tree (informational)
 	Status     Status `json:"-"`
 	StatusText string `json:"status"`
 	Fact       string `json:"fact"` // what discharged it, or what is wrong
@@ -49,19 +49,19 @@ type knownFile struct {
 
 // Check is the context of one property run.
 type Check struct {
-	Prop   string
-	Tier   string
-	Seed   int64
-	Prog   *Program
-	start  time.Time
-	obls   []*Obligation
-	keys   map[string]*Obligation
-	Notes  []string // informational lines for the evidence
-	Assume []string
-	Explain string
-	RuleText string
-	counts map[string]int
-	Analysed map[string]int // what was analysed: functions, call sites, renderings, …
+	Prop       string
+	Tier       string
+	Seed       int64
+	Prog       *Program
+	start      time.Time
+	obls       []*Obligation
+	keys       map[string]*Obligation
+	Notes      []string // informational lines for the evidence
+	Assume     []string
+	Explain    string
+	RuleText   string
+	counts     map[string]int
+	Analysed   map[string]int // what was analysed: functions, call sites, renderings, …
 	Exhaustive bool
 }
 
